@@ -40,8 +40,22 @@ case_strategy = st.fixed_dictionaries({
 })
 
 
+def cells():
+    for d in ("A", "B"):
+        for alg in jp.ALGS:
+            for enc in jp.ENCS:
+                if alg.startswith("ECDH-1PU+") and enc not in jp.CBC:
+                    continue
+                for z in (False, True):
+                    for ser in jp.SERS:
+                        yield (d, alg, enc, z, ser)
+
+
 def shards(tier):
-    return [("vectors", {"part": "vectors"})] + [(f"w{i:02d}", {"part": "gen"}) for i in range(16)]
+    out = [("vectors", {"part": "vectors"})] + [(f"w{i:02d}", {"part": "gen"}) for i in range(16)]
+    if tier == "thorough":
+        out += [(f"cells{i:02d}", {"part": "cells", "i": i, "n": 16}) for i in range(16)]
+    return out
 
 
 def _structure(token, plan, f, tag):
@@ -198,6 +212,16 @@ def run_shard(ctx, spec):
                          "spelling": style, "protected": plan["protected"], "aad": plan["aad_hex"], "plaintext_len": len(plan["plaintext_hex"]) // 2})
         for k, w in f.items():
             ctx.finding(k, w, case)
+    if spec["part"] == "cells":
+        for j, (d, alg, enc, z, ser) in enumerate(cells()):
+            if j % spec["n"] != spec["i"] or ctx.expired():
+                continue
+            strat = st.fixed_dictionaries({"dir": st.just(d), "plan": jp.plans(sers=(ser,), algs=[alg], encs=[enc], force_zip=z, max_recipients=2),
+                                           "form": st.sampled_from(KEYFORMS), "spelling": spelling, "seed": st.integers(0, 2**32),
+                                           "in_protected": st.booleans(), "zip_level": st.integers(0, 9)})
+            drive(ctx, f"cell-{d}-{alg}-{enc}-{z}-{ser}", strat, body, 4)
+            ctx.count("cells-enumerated")
+        return
     drive(ctx, "wire", case_strategy, body, 330 if ctx.tier == "quick" else 1500)
 
 
